@@ -60,6 +60,7 @@ extern int rsv_thread_rank(int thr);
 /* harness call-backs */
 extern void (*rsv_on_hang)(const char *why);                       /* must not return */
 extern void (*rsv_ev_callback)(const struct rsv_rec *r);           /* called for every trace event */
+extern void (*rsv_yield_callback)(int site, int thr);               /* called at every scheduling point (before the switch) */
 /* generic virtual threads for component harnesses (queue, barrier) */
 extern int rsv_spawn(void *(*fn)(void *), void *arg);
 extern void rsv_join_all(void);
